@@ -174,7 +174,9 @@ CLAIMS = {
             'call_peptide_fusion traversal reports exactly the non-canonical digestion products of donor-up-to-breakpoint + '
             'acceptor-from-breakpoint for miscleavage 0..1 (thorough 2) and ALL integer min/max lengths; a third fusion has '
             'an mRNA_end_NF acceptor (the open-ended last fragment is not a product). Arriba evidence thresholds: is_valid '
-            'equals the three-way conjunction for unbounded symbolic read counts / minima and every confidence pair.',
+            'equals the three-way conjunction for unbounded symbolic read counts / minima and every confidence pair; the '
+            'parseSTARFusion / parseFusionCatcher loops convert a record iff it meets the (unbounded symbolic) thresholds '
+            'and count the others as insufficient evidence.',
             'The callVariant half is decided on two fixed fusions with exonic breakpoints only; REF base content is '
             'stubbed in the parser conditions.'),
     'C18': (True, CH,
